@@ -50,7 +50,7 @@ def inject_null(doc, rng):
 
 
 def run(ctx):
-    n = 60 if ctx.tier == "quick" else 1200
+    n = 150 if ctx.tier == "quick" else 2000
     done = 0
     while done < n and ctx.time_left() > 10:
         batch = gen_valid_graphs(ctx, min(60, n - done))
